@@ -5,7 +5,7 @@ from .. import rt, framework as fw, witnesses, gen, pool
 from ..model import Driver
 from . import _scn
 
-STRINGS = ["plain", "with space", "ünïcödé", "x&y", "a<b>c", "q\"uote'", "日本語 ✓", "𝄞clef", "  lead", "trail  ", "two  spaces", "-", "--", "a@b", "semi;colon", "[br]", "li ne", "pa ra", "é", "é", "#hash", "100%", "tab-less", "x" * 200, "]]>", "<!--", "&amp;", "back\\slash", "c:\\win", "tail\\"]
+STRINGS = ["plain", "with space", "ünïcödé", "x&y", "a<b>c", "q\"uote'", "日本語 ✓", "𝄞clef", "  lead", "trail  ", "two  spaces", "-", "--", "a@b", "semi;colon", "[br]", "li ne", "pa ra", "é", "é", "#hash", "100%", "tab-less", "x" * 200, "]]>", "<!--", "&amp;", "back\\slash", "c:\\win", "tail\\", "take..2.mov", "notes...txt", "day1..day2", "..hidden", "~tilde", "$VAR"]
 FORMATS = ["md5", "sha1", "xxh128", "xxh3", "xxh64", "c4"]
 
 
